@@ -199,12 +199,16 @@ func hsDatagram(tag string, min, max int) ([]byte, int) {
 // 4-byte session id is assumed not to collide with the live session's id (a
 // 2^-32 event that the code retries 100 times before panicking).
 var hsAvoidSID [4]byte
+var hsAvoidSIDs [][4]byte
 
 func hsRandRead(b []byte) (int, error) {
 	r := verifFreshBytes("rand", len(b))
 	copy(b, r)
 	if len(b) == 4 {
 		verifAssume(!hsEq(b, hsAvoidSID[:], 4))
+		for i := range hsAvoidSIDs {
+			verifAssume(!hsEq(b, hsAvoidSIDs[i][:], 4))
+		}
 	}
 	return len(b), nil
 }
